@@ -57,8 +57,8 @@ def main(argv=None):
     rep = Report(prop, a.tier, LEVELS.get(prop, "other"), seed)
     try:
         mod = importlib.import_module("bbverif.rules.%s" % prop.lower())
-    except ImportError as e:
-        print("ANALYSIS-ERROR property=%s no rule module: %s" % (prop, e))
+    except BaseException as e:        # a broken checker must never look like a verdict
+        print("ANALYSIS-ERROR property=%s rule module cannot be loaded: %s: %s" % (prop, type(e).__name__, e))
         return 2
     try:
         mod.run(rep, a.tier)
@@ -90,7 +90,13 @@ def main(argv=None):
 
 
 if __name__ == "__main__":
+    try:
+        c = main()
+    except SystemExit as e:
+        c = e.code if isinstance(e.code, int) else 2
+    except BaseException as e:
+        print("ANALYSIS-ERROR %s: %s" % (type(e).__name__, e))
+        c = 2
     sys.stdout.flush()
-    c = main()
-    sys.stdout.flush()
+    sys.stderr.flush()
     os._exit(c)
